@@ -85,3 +85,61 @@ let () =
   reg "t.sum" (fun t -> let _ = t_i t in let al = t_q t in let a = t_crs t in let be = t_q t in let b = t_crs t in
     show_crs (MatOps.msum sc al a be b false));
   reg "t.transpose" (fun t -> let _ = t_i t in let a = t_crs t in show_crs (MatOps.transpose sc a))
+
+(* ---- executions whose OpenMP team is smaller than the thread count seen at set-up (SchedTeam.v) ----
+   tokens <nt> <k> <mode>; what the mode is meant to give at the call site:
+   0: omp_set_num_threads(k)            -> team = k, max = k
+   1, 3: teams thread_limit(k)          -> team = k, max = nt
+   2, 4: enclosing active region, nested off -> team = 1, max = nt *)
+let team_of nt k mode = match mode with
+  | 0 -> (k, k) | 1 | 3 -> (k, nt) | 2 | 4 -> (1, nt)
+  | _ -> raise (Model_exc "bad-mode")
+let head (team, mx) = Printf.sprintf "team=%d max=%d " team mx
+let t_team t = let nt = t_i t in let k = t_i t in let mode = t_i t in (nt, team_of nt k mode)
+
+let () =
+  (* the property: every team size gives the serial definition *)
+  reg "gs_team" (fun t -> let fwd = t_i t <> 0 in let (_nt, tm) = t_team t in
+    let a = t_crs t in let rhs = t_vec t in let x = t_vec t in
+    head tm ^ show_vec (Relax.gs_sweep sc a rhs x fwd));
+  reg "ilu_team" (fun t -> let (_nt, tm) = t_team t in
+    let l = t_crs t in let u = t_crs t in let d = t_vec t in let x = t_vec t in
+    head tm ^ show_vec (IluSched.ilu_serial_solve sc l u d x));
+  (* the faithful model of the code as it exists: thread t < team runs tasks[t] only *)
+  reg "m.gs_team_trunc" (fun t -> let fwd = t_i t <> 0 in let (nt, tm) = t_team t in
+    let a = t_crs t in let rhs = t_vec t in let x = t_vec t in
+    head tm ^ show_vec (SchedTeam.gs_par_sweep_team_trunc sc (fst tm) fwd a nt rhs x));
+  reg "m.ilu_team_trunc" (fun t -> let (nt, tm) = t_team t in
+    let l = t_crs t in let u = t_crs t in let d = t_vec t in let x = t_vec t in
+    head tm ^ show_vec (SchedTeam.ilu_parallel_solve_team_trunc sc (fst tm) l u d nt x));
+  (* statement tests of the any-team theorems: the repaired (cyclic) execution = serial *)
+  reg "m.gs_team_cyclic" (fun t -> let fwd = t_i t <> 0 in let (nt, tm) = t_team t in
+    let a = t_crs t in let rhs = t_vec t in let x = t_vec t in
+    let r1 = SchedTeam.gs_par_sweep_team_cyclic sc (fst tm) fwd a nt rhs x and r0 = Relax.gs_sweep sc a rhs x fwd in
+    if show_vec r1 = show_vec r0 then "valid same" else "valid differs");
+  reg "m.ilu_team_cyclic" (fun t -> let (nt, tm) = t_team t in
+    let l = t_crs t in let u = t_crs t in let d = t_vec t in let x = t_vec t in
+    let r1 = SchedTeam.ilu_parallel_solve_team_cyclic sc (fst tm) l u d nt x and r0 = IluSched.ilu_serial_solve sc l u d x in
+    if show_vec r1 = show_vec r0 then "valid same" else "valid differs");
+  (* kernels in a reduced team: the model has neither thread count nor team *)
+  reg "tt.spmv" (fun t -> let (_, tm) = t_team t in let alpha = t_q t in let a = t_crs t in let x = t_vec t in let beta = t_q t in let y = t_vec t in
+    head tm ^ show_vec (Kernels.spmv sc alpha a x beta y));
+  reg "tt.residual" (fun t -> let (_, tm) = t_team t in let f = t_vec t in let a = t_crs t in let x = t_vec t in let r = t_vec t in
+    head tm ^ show_vec (Kernels.residual sc f a x r));
+  reg "tt.axpby" (fun t -> let (_, tm) = t_team t in let a = t_q t in let x = t_vec t in let b = t_q t in let y = t_vec t in
+    head tm ^ show_vec (Kernels.axpby sc a x b y));
+  reg "tt.axpbypcz" (fun t -> let (_, tm) = t_team t in let a = t_q t in let x = t_vec t in let b = t_q t in let y = t_vec t in let c = t_q t in let z = t_vec t in
+    head tm ^ show_vec (Kernels.axpbypcz sc a x b y c z));
+  reg "tt.vmul" (fun t -> let (_, tm) = t_team t in let a = t_q t in let x = t_vec t in let y = t_vec t in let b = t_q t in let z = t_vec t in
+    head tm ^ show_vec (Kernels.vmul sc a x y b z));
+  reg "tt.inner" (fun t -> let (_, tm) = t_team t in let x = t_vec t in let y = t_vec t in
+    head tm ^ show_s (Kernels.inner_product_serial sc x y));
+  (* product(): saad up to 16 threads, rmerge (sorted rows) above -- decided by omp_get_max_threads() at the call *)
+  reg "tt.product" (fun t -> let (_, tm) = t_team t in let a = t_crs t in let b = t_crs t in
+    let c = MatOps.spgemm_saad sc a b (snd tm > 16) in
+    head tm ^ "U " ^ show_crs c ^ " S " ^ show_crs ~sorted:true c);
+  reg "tt.rmerge" (fun t -> let (_, tm) = t_team t in let a = t_crs t in let b = t_crs t in
+    head tm ^ show_crs ~sorted:true (MatOps.spgemm_saad sc a b true));
+  reg "tt.sum" (fun t -> let (_, tm) = t_team t in let al = t_q t in let a = t_crs t in let be = t_q t in let b = t_crs t in
+    head tm ^ show_crs (MatOps.msum sc al a be b false));
+  reg "tt.transpose" (fun t -> let (_, tm) = t_team t in let a = t_crs t in head tm ^ show_crs (MatOps.transpose sc a))
